@@ -294,6 +294,10 @@ class KillingFile(object):
         self.ack_fd = ack_fd
         self.nack = 0
 
+    def __getattr__(self, name):
+        # transparent for everything else (line_buffering, write_through, mode, ...)
+        return getattr(self.real, name)
+
     def _maybe(self, kind, idx):
         if self.point == (kind, idx):
             os.kill(os.getpid(), signal.SIGKILL)
@@ -367,7 +371,8 @@ def run_real(prog, kind="binary-buffered"):
             os.close(r)
             _, status = os.waitpid(pid, 0)
             killed = os.WIFSIGNALED(status) and os.WTERMSIG(status) == signal.SIGKILL
-            if pt[0] != "never" and not killed:
+            if pt[0] not in ("never", "after-flush") and not killed:
+                # (a missing flush() call is judged by the durability oracle below, not here)
                 viol.append(("harness:child-not-killed", {"point": list(pt), "status": status}))
             acked = max([int(x) for x in data.split()] or [0])
             image = open(path, "rb").read() if os.path.exists(path) else b""
